@@ -71,55 +71,59 @@ Methods     == {"GET", "POST", "DELETE", "PUT", "PATCH", "OPTIONS", "HEAD"}
 (***************************************************************************)
 (* Argument validity classes.                                              *)
 (***************************************************************************)
-CidValid    == {"v0", "v1"}
-CidInvalid  == {"garbage", "trunc"}
-PathValid   == {"ipfs", "ipfssub", "ipns", "ipnssub", "ipld", "space", "qmark", "hash", "pct", "unicode"}
+CidValid    == {"v0", "v1", "v1b58"}                 \* v1b58: the v1 CID in another multibase
+CidInvalid  == {"garbage", "trunc", "v1trunc", "space"}
+PathValid   == {"ipfs", "ipfssub", "ipns", "ipnssub", "ipld", "space", "qmark", "hash", "pct", "unicode", "plus", "amp"}
 PathInvalid == {"badcid", "badcidsub"}
-PeerValid   == {"valid"}
-PeerInvalid == {"garbage"}
-BodyValid   == {"valid"}
-BodyInvalid == {"badjson", "wrongfield", "badpeer", "empty", "wrongtype"}
+PeerValid   == {"valid", "qm", "cidform"}            \* ed25519 id, sha256 ("Qm..") id, CID-encoded id
+PeerInvalid == {"garbage", "trunc"}
+BodyValid   == {"valid", "extra"}
+BodyInvalid == {"badjson", "wrongfield", "badpeer", "empty", "wrongtype", "array", "null"}
 MpartValid   == {"file"}
 MpartInvalid == {"notmultipart"}
 MnameValid  == {"ping", "special"}
 LocalVals   == {"absent", "true", "false"}
-FilterValid   == {"absent", "valid", "multi"}
-FilterInvalid == {"invalid"}
+\* as coded only the literal "true" means local; "TRUE", "1", "maybe" silently mean "not local"
+LocalLenient == {"upper", "one", "garbage"}
+FilterValid   == {"absent", "valid", "multi", "composite", "dup"}
+FilterInvalid == {"invalid", "undefined"}
+\* a list mixing a known and an unknown name: the unknown name is ignored as coded
+FilterLenient == {"mixed"}
 
 \* --- pin options (query parameters read by PinOptions.FromQuery) ---
 OptNames == {"name", "mode", "rmin", "rmax", "repl", "shard", "ualloc", "expire", "meta", "update", "origins"}
 
 \* values the statement calls valid
 OptValid(n) ==
-    CASE n = "name"    -> {"absent", "plain", "special"}
+    CASE n = "name"    -> {"absent", "plain", "special", "ws"}
       [] n = "mode"    -> {"absent", "recursive", "direct"}
-      [] n = "rmin"    -> {"absent", "two", "neg"}
-      [] n = "rmax"    -> {"absent", "three", "neg"}
-      [] n = "repl"    -> {"absent", "one"}
-      [] n = "shard"   -> {"absent", "k1024"}
-      [] n = "ualloc"  -> {"absent", "one", "two"}
-      [] n = "expire"  -> {"absent", "at", "in1h"}
-      [] n = "meta"    -> {"absent", "one", "two"}
-      [] n = "update"  -> {"absent", "v0"}
-      [] n = "origins" -> {"absent", "one", "two"}
+      [] n = "rmin"    -> {"absent", "two", "neg", "zero", "plus", "negtwo"}
+      [] n = "rmax"    -> {"absent", "three", "neg", "zero"}
+      [] n = "repl"    -> {"absent", "one", "neg", "zero"}
+      [] n = "shard"   -> {"absent", "k1024", "zero", "big"}
+      [] n = "ualloc"  -> {"absent", "one", "two", "qm", "dup"}
+      [] n = "expire"  -> {"absent", "at", "atfrac", "atpast", "in1h", "in90m", "in1s"}
+      [] n = "meta"    -> {"absent", "one", "two", "prefixy", "special", "emptykey"}
+      [] n = "update"  -> {"absent", "v0", "v1"}
+      [] n = "origins" -> {"absent", "one", "two", "onlyp2p"}
 
 \* undecodable values the code refuses
 OptRefused(n) ==
-    CASE n = "rmin"    -> {"garbage", "float"}
-      [] n = "rmax"    -> {"garbage"}
+    CASE n = "rmin"    -> {"garbage", "float", "spacey", "huge"}
+      [] n = "rmax"    -> {"garbage", "huge"}
       [] n = "repl"    -> {"garbage"}
-      [] n = "shard"   -> {"garbage", "negative"}
-      [] n = "expire"  -> {"atgarbage", "inshort", "ingarbage"}
+      [] n = "shard"   -> {"garbage", "negative", "float", "plus"}
+      [] n = "expire"  -> {"atgarbage", "atdate", "inshort", "ingarbage", "inneg", "innounit"}
       [] n = "update"  -> {"garbage"}
-      [] n = "origins" -> {"nopeer", "garbage"}
+      [] n = "origins" -> {"nopeer", "garbage", "spaced"}
       [] OTHER         -> {}
 
 \* undecodable values the code accepts by substituting a default
 \* (PinModeFromString: unknown -> recursive; StringsToPeers: drops what does
 \* not decode).  As coded these are translated; the statement wants them refused.
 OptLenient(n) ==
-    CASE n = "mode"   -> {"garbage"}
-      [] n = "ualloc" -> {"garbage", "mixed"}
+    CASE n = "mode"   -> {"garbage", "upper"}
+      [] n = "ualloc" -> {"garbage", "mixed", "spaced"}
       [] OTHER        -> {}
 
 OptInvalid(n) == OptRefused(n) \cup OptLenient(n)
@@ -153,8 +157,20 @@ AddOptClasses(n) == AddOptValid(n) \cup AddOptRefused(n)
 (*  [via, cfg, cred, method, pat, pre, cid, path, peer, body, mname,       *)
 (*   local, filter, ans, o : OptNames -> class, a : AddOptNames -> class]  *)
 (***************************************************************************)
-CredRight == {"right", "right2"}
-CredWrong == {"missing", "wronguser", "wrongpass", "swapped", "malformed", "bearer", "emptypass"}
+\* right / right2: the two configured users; rightlower: "basic" scheme in lower case (RFC 7617: case-insensitive)
+CredRight == {"right", "right2", "rightlower"}
+\* every way of not presenting a configured (user, password) pair:
+\*   missing       no Authorization header
+\*   wronguser     unknown user + a configured password      wrongpass    configured user + wrong password
+\*   swapped       user1 + user2's password                  user2pass1   user2 + user1's password
+\*   emptypass     configured user + empty password          unknownempty unknown user + empty password
+\*   emptyempty    empty user + empty password (":")         emptyuser    empty user + a configured password
+\*   userpassswap  password as user and user as password    caseuser     configured user in another case
+\*   passspace     right password + trailing space           passprefix   right password minus its last character
+\*   nocolon       base64 of a user name without colon       malformed    not base64
+\*   bearer/digest other schemes carrying a configured password
+CredWrong == {"missing", "wronguser", "wrongpass", "swapped", "user2pass1", "emptypass", "unknownempty", "emptyempty",
+              "emptyuser", "userpassswap", "caseuser", "passspace", "passprefix", "nocolon", "malformed", "bearer", "digest"}
 Creds     == CredRight \cup CredWrong
 
 Authorized(req) == req.cfg = "open" \/ req.cred \in CredRight
@@ -186,33 +202,56 @@ PosInvalid(req, r) ==
     \/ "filter" \in r.args /\ req.filter \in FilterInvalid
     \/ "addopts" \in r.args /\ \E n \in AddOptNames : req.a[n] \in AddOptRefused(n)
 
+\* undecodable positional / query values that are accepted as coded
+PosLenient(req, r) ==
+    \/ "local" \in r.args /\ req.local \in LocalLenient
+    \/ "filter" \in r.args /\ req.filter \in FilterLenient
+
 \* malformed in a component the route carries: the statement demands a refusal
 RelevantInvalid(req, r) ==
     \/ PosInvalid(req, r)
+    \/ PosLenient(req, r)
     \/ \E n \in UsedOpts(r) : ~Shadowed(req.o, n) /\ req.o[n] \in OptInvalid(n)
 
 \* nothing malformed anywhere in the request
 AllValid(req, r) ==
     /\ ~PosInvalid(req, r)
+    /\ ~PosLenient(req, r)
     /\ \A n \in OptNames : req.o[n] \in OptValid(n)
 
 (***************************************************************************)
 (* Argument projections (what the recorder is expected to have received).  *)
 (***************************************************************************)
-CidTok(c)  == CASE c = "v0" -> "c1" [] c = "v1" -> "c2" [] OTHER -> "?"
-NumTok(c)  == CASE c = "absent" -> 0 [] c = "one" -> 1 [] c = "two" -> 2 [] c = "three" -> 3
-                [] c = "neg" -> -1 [] OTHER -> 0
-Rmin(o)    == IF o["repl"] = "one" THEN 1 ELSE NumTok(o["rmin"])
-Rmax(o)    == IF o["repl"] = "one" THEN 1 ELSE NumTok(o["rmax"])
+CidTok(c)  == CASE c = "v0" -> "c1" [] c \in {"v1", "v1b58"} -> "c2" [] OTHER -> "?"
+PeerTok(c) == CASE c = "qm" -> "p4" [] OTHER -> "p3"
+NumTok(c)  == CASE c = "absent" -> 0 [] c = "zero" -> 0 [] c = "one" -> 1 [] c = "two" -> 2 [] c = "plus" -> 2
+                [] c = "three" -> 3 [] c = "neg" -> -1 [] c = "negtwo" -> -2 [] OTHER -> 0
+Rmin(o)    == IF o["repl"] \in {"one", "neg", "zero"} THEN NumTok(o["repl"]) ELSE NumTok(o["rmin"])
+Rmax(o)    == IF o["repl"] \in {"one", "neg", "zero"} THEN NumTok(o["repl"]) ELSE NumTok(o["rmax"])
 ModeTok(c) == IF c = "direct" THEN "direct" ELSE "recursive"     \* as coded: garbage -> recursive
-UallocTok(c) == CASE c = "one" -> <<"p1">> [] c = "two" -> <<"p1", "p2">> [] c = "mixed" -> <<"p1">>
-                  [] OTHER -> <<>>                                \* as coded: garbage dropped
-ExpireTok(c) == CASE c = "at" -> "T1" [] c = "in1h" -> "in1h" [] OTHER -> "none"
-MetaTok(c)   == CASE c = "one" -> <<"k1=v1">> [] c = "two" -> <<"k1=v1", "k2=v 2&x">> [] OTHER -> <<>>
-OriginsTok(c) == CASE c = "one" -> <<"o1">> [] c = "two" -> <<"o1", "o2">> [] OTHER -> <<>>
+UallocTok(c) == CASE c = "one" -> <<"p1">> [] c = "two" -> <<"p1", "p2">> [] c = "qm" -> <<"p4">>
+                  [] c = "dup" -> <<"p1", "p1">>
+                  [] c \in {"mixed", "spaced"} -> <<"p1">>       \* as coded: what does not decode is dropped
+                  [] OTHER -> <<>>
+ExpireTok(c) == CASE c = "at" -> "T1" [] c = "atfrac" -> "T2" [] c = "atpast" -> "T0"
+                  [] c \in {"in1h", "in90m", "in1s"} -> c [] OTHER -> "none"
+\* metadata: (key, value) pairs in key order, compared field by field.  The keys
+\* of "prefixy" begin with each character of the "meta-" prefix; "special" has
+\* URL syntax, an empty value and non-ASCII text (rendered U+XXXX by the driver);
+\* "emptykey" adds meta-=x, which FromQuery and ToQuery both document as skipped.
+MetaTok(c)   == CASE c = "one" -> << <<"k1", "v1">> >>
+                  [] c = "two" -> << <<"k1", "v1">>, <<"k2", "v 2&x">> >>
+                  [] c = "prefixy" -> << <<"-x", "4">>, <<"a", "3">>, <<"e", "6">>, <<"meta", "1">>, <<"mm", "7">>,
+                                         <<"team", "5">>, <<"type", "2">> >>
+                  [] c = "special" -> << <<"a=b", "1">>, <<"c&d", "2">>, <<"empty-val", "">>, <<"kU+00E9", "U+4E2D">>,
+                                         <<"meta-inner", "5">>, <<"sp ace", "4">> >>
+                  [] c = "emptykey" -> << <<"k1", "v1">> >>
+                  [] OTHER -> <<>>
+OriginsTok(c) == CASE c = "one" -> <<"o1">> [] c = "two" -> <<"o1", "o2">> [] c = "onlyp2p" -> <<"o3">> [] OTHER -> <<>>
 NameTok(c)   == IF c = "absent" THEN "" ELSE c
-ShardTok(c)  == IF c = "k1024" THEN 1024 ELSE 0
-UpdateTok(c) == IF c = "v0" THEN "c9" ELSE "none"
+\* decimal strings: shard sizes are uint64
+ShardTok(c)  == CASE c = "k1024" -> "1024" [] c = "big" -> "9223372036854775813" [] OTHER -> "0"
+UpdateTok(c) == CASE c = "v0" -> "c9" [] c = "v1" -> "c8" [] OTHER -> "none"
 
 OptArg(o) ==
     [name |-> NameTok(o["name"]), mode |-> ModeTok(o["mode"]), rmin |-> Rmin(o), rmax |-> Rmax(o),
@@ -225,14 +264,15 @@ PinPathArg(req) == [k |-> "pinpath", path |-> req.path, opts |-> OptArg(req.o)]
 AddOpts(req)    == [OptArg(req.o) EXCEPT !.mode = "recursive", !.update = "none"]
 AddArg(req, c)  == [k |-> "addpin", cid |-> c, opts |-> AddOpts(req)]
 
-FilterTok(f) == CASE f = "valid" -> "pinned" [] f = "multi" -> "pinned,pin_error" [] OTHER -> "undefined"
+FilterTok(f) == CASE f \in {"valid", "dup", "mixed"} -> "pinned"          \* as coded: unknown names ignored
+                  [] f = "multi" -> "pinned,pin_error" [] f = "composite" -> "error" [] OTHER -> "undefined"
 
 ArgOf(r, req) ==
     CASE r.arg = "none"     -> [k |-> "none"]
       [] r.arg = "pin"      -> PinArg(req)
       [] r.arg = "pinpath"  -> PinPathArg(req)
       [] r.arg = "cid"      -> [k |-> "cid", cid |-> CidTok(req.cid)]
-      [] r.arg = "peer"     -> [k |-> "peer", peer |-> "p3"]
+      [] r.arg = "peer"     -> [k |-> "peer", peer |-> PeerTok(req.peer)]
       [] r.arg = "bodypeer" -> [k |-> "peer", peer |-> "p3"]
       [] r.arg = "filter"   -> [k |-> "filter", f |-> FilterTok(req.filter)]
       [] r.arg = "str"      -> [k |-> "str", s |-> req.mname]
@@ -336,7 +376,8 @@ Deviates(req) ==
     /\ Authorized(req) /\ ~Preflight(req) /\ Match(req) # {}
     /\ LET r == RouteOf(req) IN
         /\ ~CodeRefuses(req, r)
-        /\ \E n \in UsedOpts(r) : ~Shadowed(req.o, n) /\ req.o[n] \in OptLenient(n)
+        /\ \/ \E n \in UsedOpts(r) : ~Shadowed(req.o, n) /\ req.o[n] \in OptLenient(n)
+           \/ PosLenient(req, r)
 
 (***************************************************************************)
 (* Client clause: "a call made through the bundled client library arrives  *)
